@@ -29,6 +29,8 @@ func Reach(label string)
 func Thorough() bool
 func Concrete(v any) bool
 func Replace(target string, fn any)
+func Native() bool
+func NativeUnsupported(why string)
 func ReplaceSym(target string, fn any) // like Replace, but the native replay runs the real function
 func UF8(name string, in []byte) byte
 func UFBytes(name string, in []byte, n int) []byte
